@@ -17,6 +17,7 @@ package validate
 import (
 	"context"
 	"fmt"
+	"math"
 	"reflect"
 	"strings"
 	"unicode/utf8"
@@ -312,6 +313,16 @@ func FormatOf(path, in, format, data string, registry strfmt.Registry) *errors.V
 	return nil
 }
 
+// isExactInt64 tells if a float64 constraint converts to int64 without any loss.
+func isExactInt64(f float64) bool {
+	return f == math.Trunc(f) && f >= -9223372036854775808.0 && f < 9223372036854775808.0
+}
+
+// isExactUint64 tells if a float64 constraint converts to uint64 without any loss.
+func isExactUint64(f float64) bool {
+	return f == math.Trunc(f) && f >= 0 && f < 18446744073709551616.0
+}
+
 // MaximumNativeType provides native type constraint validation as a facade
 // to various numeric types versions of Maximum constraint check.
 //
@@ -327,11 +338,18 @@ func MaximumNativeType(path, in string, val interface{}, maximum float64, exclus
 	switch kind { //nolint:exhaustive
 	case reflect.Int, reflect.Int8, reflect.Int16, reflect.Int32, reflect.Int64:
 		value := valueHelp.asInt64(val)
+		if !isExactInt64(maximum) {
+			// fractional or out-of-range constraint: no loss-free integer version of it exists
+			return Maximum(path, in, float64(value), maximum, exclusive)
+		}
 		return MaximumInt(path, in, value, int64(maximum), exclusive)
 	case reflect.Uint, reflect.Uint8, reflect.Uint16, reflect.Uint32, reflect.Uint64:
 		value := valueHelp.asUint64(val)
 		if maximum < 0 {
 			return errors.ExceedsMaximum(path, in, maximum, exclusive, val)
+		}
+		if !isExactUint64(maximum) {
+			return Maximum(path, in, float64(value), maximum, exclusive)
 		}
 		return MaximumUint(path, in, value, uint64(maximum), exclusive)
 	case reflect.Float32, reflect.Float64:
@@ -357,11 +375,17 @@ func MinimumNativeType(path, in string, val interface{}, minimum float64, exclus
 	switch kind { //nolint:exhaustive
 	case reflect.Int, reflect.Int8, reflect.Int16, reflect.Int32, reflect.Int64:
 		value := valueHelp.asInt64(val)
+		if !isExactInt64(minimum) {
+			return Minimum(path, in, float64(value), minimum, exclusive)
+		}
 		return MinimumInt(path, in, value, int64(minimum), exclusive)
 	case reflect.Uint, reflect.Uint8, reflect.Uint16, reflect.Uint32, reflect.Uint64:
 		value := valueHelp.asUint64(val)
 		if minimum < 0 {
 			return nil
+		}
+		if !isExactUint64(minimum) {
+			return Minimum(path, in, float64(value), minimum, exclusive)
 		}
 		return MinimumUint(path, in, value, uint64(minimum), exclusive)
 	case reflect.Float32, reflect.Float64:
@@ -387,9 +411,15 @@ func MultipleOfNativeType(path, in string, val interface{}, multipleOf float64) 
 	switch kind { //nolint:exhaustive
 	case reflect.Int, reflect.Int8, reflect.Int16, reflect.Int32, reflect.Int64:
 		value := valueHelp.asInt64(val)
+		if !isExactInt64(multipleOf) {
+			return MultipleOf(path, in, float64(value), multipleOf)
+		}
 		return MultipleOfInt(path, in, value, int64(multipleOf))
 	case reflect.Uint, reflect.Uint8, reflect.Uint16, reflect.Uint32, reflect.Uint64:
 		value := valueHelp.asUint64(val)
+		if !isExactUint64(multipleOf) {
+			return MultipleOf(path, in, float64(value), multipleOf)
+		}
 		return MultipleOfUint(path, in, value, uint64(multipleOf))
 	case reflect.Float32, reflect.Float64:
 		fallthrough
